@@ -14,12 +14,18 @@ def nontrivial(case, impl, model, oracle):
 
 CHECK, MANIFEST = srvgen.make_check(
     "C07", "Props/C07.v",
-    ["c07_dispatch", "c07_query_table", "c07_longest_suffix", "c07_error_responses_empty", "c07_data_only_from_loaded_zone"],
+    ["c07_dispatch", "c07_query_table", "c07_longest_suffix", "c07_error_responses_empty", "c07_data_only_from_loaded_zone",
+     "c07_catalog_tree_link", "c07_catalog_refinement_link", "c07_single_zone_link", "c07_srv_entry_fields", "c07_tree_of_entries_ok", "c07_query_table_tree", "c07_clean_query_tree",
+     "c07_answering_writer_agrees", "c07_clean_query_numbers"],
     srvgen.oracle_c07, gen, nontrivial, srvgen.std_classify,
     ("Coq theorems (no axioms): a request that passes the generic pre-processing is dispatched on its opcode (anything but QUERY: "
      "NOTIMP, whatever the catalog); the QUERY decision table (QTYPE AXFR/IXFR/MAILA/MAILB and QCLASS ANY: NOTIMP regardless of "
      "the catalog; otherwise the entry selected by a longest-suffix match within the class, proved to be exactly that: none => "
      "REFUSED, not-yet-loaded/failed => SERVFAIL, loaded => the zone's answer); these error responses carry no records and have "
-     "AA clear, and records/AA only ever come from a clean QUERY answered out of a Loaded zone. The catalog is the flat reference "
-     "map; its refinement by the hash-map tree is C22."),
+     "AA clear, and records/AA only ever come from a clean QUERY answered out of a Loaded zone. The catalog of the model is a flat "
+     "list; c07_catalog_tree_link proves that for EVERY hash-map-tree catalog (Model/CatTree.v, C22) reachable by insert/remove "
+     "histories the flat lookup on the tree's flat view returns exactly the entry the tree's own lookup returns (same class, name "
+     "modulo case, kind), so the table holds verbatim for the real structure (c07_query_table_tree, c07_clean_query_tree: end to "
+     "end from the request octets, the QNAME being the spec-level decoding); the model runner builds the catalog by Catalog::insert "
+     "into the tree model and dispatches on its flat view."),
     "machine-checked proof in Coq (decision table as implications, longest-suffix characterisation) + correspondence check")
